@@ -150,6 +150,7 @@ theorem wf_step (fns : List FnDecl) (s : St) (op : Op) (h : TableWf s) : TableWf
             exact absurd (by simp [setTask, hreg, hm0]) hc
           · exact hother k t0 e hm0
   | threadEnd th => exact h
+  | outside n => exact h
 
 theorem wf_final (fns : List FnDecl) (ops : List Op) : ∀ s, TableWf s → TableWf (finalState fns s ops) := by
   induction ops with
@@ -231,6 +232,7 @@ theorem step_keeps_other (fns : List FnDecl) (s : St) (op : Op) (k : Key) (hne :
         · simp [setTask, mget_merase, hkne]
         · rfl
   | threadEnd th => rfl
+  | outside n => rfl
 
 theorem avoids_keeps (fns : List FnDecl) (k : Key) (ops : List Op) :
     ∀ s, avoids fns k s ops = true → mget (finalState fns s ops).table k = mget s.table k := by
@@ -311,6 +313,7 @@ theorem calm_step (fns : List FnDecl) (s : St) (k : Key) (t0 : Nat) (op : Op)
   | resume t b => rw [step_keeps_other fns s _ k (by simp [opKey])]; exact hm
   | suspend t => rw [step_keeps_other fns s _ k (by simp [opKey])]; exact hm
   | threadEnd th => exact hm
+  | outside n => exact hm
 
 theorem calm_keeps (fns : List FnDecl) (k : Key) (t0 : Nat) (ops : List Op) :
     ∀ s, mget s.table k = some t0 → calm fns k t0 ops = true → mget (finalState fns s ops).table k = some t0 := by
@@ -438,6 +441,7 @@ theorem step_size (fns : List FnDecl) (s : St) (op : Op) : sizeOk s.table.length
           exact decide_eq_true (merase_length_le s.table _)
         · simp [sizeOk, setTask]
   | threadEnd th => simp [observe, step, sizeOk]
+  | outside n => simp [observe, step, sizeOk]
 
 /-! ### a body starts at most once -/
 
@@ -530,6 +534,7 @@ theorem started_step (fns : List FnDecl) (s : St) (op : Op) (t : Nat) (h : start
           exact ⟨a, ha, hs⟩
         · exact this
   | threadEnd th => exact h
+  | outside n => exact h
 
 theorem bodyStarts_cons (t : Nat) (ob : Obs) (obs : List Obs) :
     bodyStarts t (ob :: obs) = (if isStartOf t ob then 1 else 0) + bodyStarts t obs := by
